@@ -112,10 +112,11 @@ theorem applyOps_last_setProfile (rd : Rec → D Rec) (ops : List Op) (f : Strin
     | some o1 => simp only [hop] at h; exact ih o1 h
 
 /-- the bit setters accumulate: a second call keeps the bits of the first -/
-theorem orByte_accumulates (f : String) (k1 k2 : Nat) (o : Rec) (h0 : o f = .i 0) (h1 : k1 < 256) (h2 : k2 < 256) :
-    ((Setter.orByte f).apply (.int k2) ((Setter.orByte f).apply (.int k1) o)) f = .i ((k1 ||| k2 : Nat)) := by
-  have hlt : k1 ||| k2 < 256 := Nat.or_lt_two_pow (n := 8) h1 h2
-  simp only [Setter.apply, Rec.set_same, h0, Val.toInt, Int.toNat_zero, Nat.zero_or, Int.toNat_natCast,
-    Nat.mod_eq_of_lt h1, Nat.mod_eq_of_lt hlt]
+theorem orByte_accumulates (f : String) (b k1 k2 : Nat) (o : Rec) (h0 : o f = .i b) (hb : b < 256) (h1 : k1 < 256)
+    (h2 : k2 < 256) :
+    ((Setter.orByte f).apply (.int k2) ((Setter.orByte f).apply (.int k1) o)) f = .i ((b ||| k1 ||| k2 : Nat)) := by
+  have hl1 : b ||| k1 < 256 := Nat.or_lt_two_pow (n := 8) hb h1
+  have hl2 : b ||| k1 ||| k2 < 256 := Nat.or_lt_two_pow (n := 8) hl1 h2
+  simp only [Setter.apply, Rec.set_same, h0, Val.toInt, Int.toNat_natCast, Nat.mod_eq_of_lt hl1, Nat.mod_eq_of_lt hl2]
 
 end Step
